@@ -935,7 +935,7 @@ theorem inv_load (allowIp : Bool) (now : Int) (data : List Saved) : Inv (load al
   unfold load
   apply inv_doExpiration
   suffices H : ∀ (j : Jar), Inv j → Inv (data.foldl (fun (j : Jar) (s : Saved) =>
-      let host : Option Str := if s.dom.isEmpty then none else some s.dom
+      let host : Option Str := if s.dom.isEmpty then none else some (s.dom.map lowerCp)
       let rpath : Str := if s.dom.isEmpty then [] else [47]
       let j := update allowIp now host rpath j [s.raw]
       match s.exp with
@@ -1057,7 +1057,7 @@ theorem noShared_load (allowIp : Bool) (now : Int) (data : List Saved) (hd : ∀
   unfold load
   apply noShared_doExpiration
   suffices H : ∀ (j : Jar), NoShared j → NoShared (data.foldl (fun (j : Jar) (s : Saved) =>
-      let host : Option Str := if s.dom.isEmpty then none else some s.dom
+      let host : Option Str := if s.dom.isEmpty then none else some (s.dom.map lowerCp)
       let rpath : Str := if s.dom.isEmpty then [] else [47]
       let j := update allowIp now host rpath j [s.raw]
       match s.exp with
@@ -1069,8 +1069,9 @@ theorem noShared_load (allowIp : Bool) (now : Int) (data : List Saved) (hd : ∀
     intro j h
     simp only [List.foldl_cons]
     apply ih (fun x hx => hd x (List.mem_cons_of_mem _ hx))
-    have hs := hd s List.mem_cons_self
-    have he : s.dom.isEmpty = false := by simpa using hs
+    have hs0 := hd s List.mem_cons_self
+    have hs : s.dom.map lowerCp ≠ [] := by simpa using hs0
+    have he : s.dom.isEmpty = false := by simpa using hs0
     simp only [he, Bool.false_eq_true, if_false]
     split
     · intro e hx; rw [expireCookie_cookies] at hx; exact noShared_update _ _ _ _ _ _ hs h e hx
